@@ -4,6 +4,7 @@ operand origins, call graph) over the mini-MIR emitted by tools/factx.
 Pure python3 stdlib.  Nothing here executes crate code.
 """
 import json
+import os
 import re
 from collections import defaultdict, deque
 
@@ -106,6 +107,29 @@ class Fn:
 
     def return_blocks(self):
         return [i for i, b in enumerate(self.blocks) if b["term"]["k"] == "return"]
+
+    def error_blocks(self):
+        """blocks on which the function is committed to returning Err: `?` residual conversion or `_0 = Err(..)`; in a body with
+        virtually inlined helpers also the helpers' own error exits when the helper's Result is handed on by the caller"""
+        out = set()
+        rets = {0} | set(self.j.get("ret_locals", []))
+        for bi, b in enumerate(self.blocks):
+            t = b["term"]
+            if t["k"] == "call":
+                p = (t["func"].get("fn") or {}).get("path", "")
+                if p.endswith("FromResidual::from_residual") and t["dest"]["l"] in rets and not t["dest"].get("p"):
+                    out.add(bi)
+            for s in b["stmts"]:
+                if s["k"] == "assign" and s["lhs"]["l"] in rets and not s["lhs"].get("p") and s["rv"]["k"] == "agg" \
+                        and s["rv"].get("variant") == "Err":
+                    out.add(bi)
+        return out
+
+    def sdominates(self, a, b):
+        """a dominates b on *success paths*: every path from the entry to b that does not pass an error block passes a"""
+        if a == b:
+            return True
+        return b not in self.reachable(0, avoid=self.error_blocks() | {a})
 
     def dominators(self):
         """dom[b] = set of blocks dominating b (normal edges, from bb0)."""
@@ -331,14 +355,28 @@ class Facts:
         return [f for f in self.fns.values() if f.j.get("parent") == fid]
 
     def descendants(self, fid):
+        """closures/coroutines nested in fid - and in the private helpers that were virtually inlined into it"""
         out = []
-        st = [fid]
+        st = [fid] + sorted(getattr(self, "_inl_children", {}).get(fid, ()))
+        seen = set()
         while st:
             x = st.pop()
+            if x in seen:
+                continue
+            seen.add(x)
             for c in self.children(x):
                 out.append(c)
                 st.append(c.id)
         return out
+
+    def inlined(self, fn):
+        """fn with its type's private, non-anchor helper methods virtually inlined (cached)"""
+        if fn is None:
+            return None
+        cache = self.__dict__.setdefault("_inl_cache", {})
+        if fn.id not in cache:
+            cache[fn.id] = inline_private_helpers(self, fn)
+        return cache[fn.id]
 
     # ---- closures by type string
     def closure_by_ty(self):
@@ -415,3 +453,142 @@ def const_value(op):
         if "hex" in sl:
             return bytes.fromhex(sl["hex"])[: sl.get("len")]
     return None
+
+
+# ---------------------------------------------------------------------------------------------------------------
+# virtual inlining of private helper methods
+
+_RULE_NAMES = None
+
+
+def rule_names():
+    """identifiers that the rule sources mention as string literals (anchor names): helpers with such a name are never inlined"""
+    global _RULE_NAMES
+    if _RULE_NAMES is None:
+        names = set()
+        base = os.path.dirname(os.path.abspath(__file__))
+        for d in (base, os.path.join(os.path.dirname(base), "props")):
+            for fn_ in os.listdir(d):
+                if fn_.endswith(".py"):
+                    with open(os.path.join(d, fn_)) as fh:
+                        names |= set(re.findall(r"[\"']\.?([a-z_][a-z0-9_]{2,})[\"']", fh.read()))
+        _RULE_NAMES = names
+    return _RULE_NAMES
+
+
+def _shift(o, off_l, off_b, is_term=False):
+    """deep copy of a MIR json node with local numbers shifted by off_l"""
+    if isinstance(o, dict):
+        if "f" in o and "l" in o and "c" in o:      # a source location
+            return dict(o)
+        r = {}
+        for k, v in o.items():
+            if k == "l" and isinstance(v, int):
+                r[k] = v + off_l
+            elif k == "p" and isinstance(v, list):
+                r[k] = [re.sub(r"^\[_(\d+)\]$", lambda m: "[_%d]" % (int(m.group(1)) + off_l), e) if isinstance(e, str) else _shift(e, off_l, off_b) for e in v]
+            else:
+                r[k] = _shift(v, off_l, off_b)
+        return r
+    if isinstance(o, list):
+        return [_shift(x, off_l, off_b) for x in o]
+    return o
+
+
+def _shift_term(t, off_l, off_b):
+    r = _shift(t, off_l, off_b)
+    for k in ("t", "unwind", "drop", "otherwise"):
+        if isinstance(t.get(k), int):
+            r[k] = t[k] + off_b
+    if t.get("k") == "switch":
+        r["targets"] = [[v, tb + off_b] for v, tb in t["targets"]]
+    return r
+
+
+def is_private_helper(g):
+    """a private, non-anchor, non-trait method / associated function: the kind of helper an extract-method refactoring creates"""
+    if g is None or not g.blocks or g.kind not in ("method", "fn") or g.j.get("trait") or g.j.get("in_trait"):
+        return False
+    if (g.j.get("vis") or "") == "Public":
+        return False
+    return (g.j.get("method") or g.name.split("::")[-1]) not in rule_names()
+
+
+def inline_private_helpers(F, fn, depth=2, max_blocks=4000):
+    """A copy of `fn` in which calls to *private, non-anchor methods / associated functions of the same type* are replaced by
+    the callee's body (locals renumbered, parameters assigned from the arguments, `return` turned into an assignment of the
+    destination plus a jump to the call's successor).  Extract-method refactorings inside a type therefore leave the
+    dominance / must-pass / ordering facts the rules look at unchanged.  Anchor methods (any name a rule mentions), public
+    methods, trait methods and recursive calls are kept as calls."""
+    import copy
+    base_ty = (fn.j.get("self_ty") or "").split("<")[0]
+    if not base_ty or not fn.blocks:
+        return fn
+    anchors = rule_names()
+    j = copy.deepcopy(fn.j)
+    blocks = j["mir"]["blocks"]
+    locs = j["mir"]["locals"]
+    inlined = []
+    for _round in range(depth):
+        changed = False
+        for bi in range(len(blocks)):
+            b = blocks[bi]
+            t = b["term"]
+            if t["k"] != "call" or b.get("cleanup") or len(blocks) > max_blocks:
+                continue
+            f = t["func"].get("fn") or {}
+            cid = (f.get("res") or {}).get("id") or f.get("id")
+            g = F.fns.get(cid) if cid else None
+            if g is None or not g.blocks or g.id == fn.id or g.kind not in ("method", "fn"):
+                continue
+            if (g.j.get("self_ty") or "").split("<")[0] != base_ty or g.j.get("trait") or g.j.get("in_trait"):
+                continue
+            if (g.j.get("vis") or "") == "Public" or (g.j.get("method") or g.name.split("::")[-1]) in anchors:
+                continue
+            if g.name in inlined and _round > 0 and any(x == g.name for x in inlined[-50:]) and len(inlined) > 200:
+                continue
+            argc = g.j["mir"]["argc"]
+            if argc != len(t.get("args", [])):
+                continue
+            off_l, off_b = len(locs), len(blocks)
+            for l in g.j["mir"]["locals"]:
+                locs.append(dict(l))
+            dest = t["dest"]
+            tgt = t.get("t")
+            # is the helper's Result handed on (returned, or consumed by `?`) - then its error exits are error exits of the caller
+            propagated = dest["l"] == 0 and not dest.get("p")
+            if not propagated and not dest.get("p"):
+                for ob in blocks:
+                    ot = ob["term"]
+                    if ot["k"] == "call" and ((ot["func"].get("fn") or {}).get("path") or "").endswith("Try::branch") \
+                            and any(a.get("l") == dest["l"] and not a.get("p") for a in ot.get("args", [])):
+                        propagated = True
+            if propagated:
+                j.setdefault("ret_locals", []).append(off_l)
+            for gb in g.j["mir"]["blocks"]:
+                nb = {"stmts": [_shift(s, off_l, off_b) for s in gb["stmts"]], "term": _shift_term(gb["term"], off_l, off_b)}
+                if gb.get("cleanup"):
+                    nb["cleanup"] = True
+                if gb["term"]["k"] == "return":
+                    nb["stmts"].append({"k": "assign", "lhs": dict(dest), "rv": {"k": "use", "ops": [{"l": off_l, "k": "move"}]}, "line": t["loc"]["l"]})
+                    if tgt is not None:
+                        nb["term"] = {"k": "goto", "t": tgt, "loc": gb["term"].get("loc", t["loc"])}
+                    else:
+                        nb["term"] = {"k": "unreachable", "loc": gb["term"].get("loc", t["loc"])}
+                blocks.append(nb)
+            for i, a in enumerate(t.get("args", [])):
+                b["stmts"].append({"k": "assign", "lhs": {"l": off_l + 1 + i}, "rv": {"k": "use", "ops": [a]}, "line": t["loc"]["l"]})
+            b["term"] = {"k": "goto", "t": off_b, "loc": t["loc"]}
+            inlined.append(g.name)
+            changed = True
+        if not changed:
+            break
+    if not inlined:
+        return fn
+    j["inlined"] = inlined
+    reg = F.__dict__.setdefault("_inl_children", {})
+    for nm in inlined:
+        for g in F.by_name.get(nm, []):
+            reg.setdefault(fn.id, set()).add(g.id)
+    nf = Fn(j, F)
+    return nf
